@@ -462,7 +462,7 @@ def certificate(M, x, method):
     consistent = r_opt <= 1e-8 * nb
     square = A.shape[0] == A.shape[1]
     s = svals(A)
-    unique = A.shape[0] >= A.shape[1] and s[-1] >= 1e-6 * s[0]
+    unique = A.shape[0] >= A.shape[1] and s[-1] >= 1e-4 * s[0]
     cond = float(s[0] / max(s[-1], 1e-300))
     out = dict(r_opt=r_opt, r_rep=r_rep, lam=lam, consistent=consistent, square=square, unique=unique, cond=cond, z=z, verdicts=[])
     out["fb_consistent"] = fb = bool(consistent and np.linalg.norm(M @ z[:-1]) <= 1e-8 * nb)
@@ -475,7 +475,7 @@ def certificate(M, x, method):
     else:
         scale = max(1.0, 1e-3 * cond)
     rtol = RTOL[method] * (scale if method == "lsq_linear" else 1.0)
-    xtol = XTOL[method] * scale
+    xtol = XTOL[method] * scale * max(1.0, float(np.abs(z).max()))
     out["gap"] = (r_rep - r_opt) / max(nb, r_opt)
     # the inversion path solves the square system exactly and does not look at the sign of the multiplier
     inv_neg = False
@@ -594,6 +594,8 @@ def _case_b02(spec):
             if err <= tol:
                 continue
             name, key = f"coef:{cls}:{cfg}", None
+            if cls == "flat" and abs(got[0] * tg[0] + got[1] * tg[1]) < 0.2:
+                name = f"coef:flat-perpendicular:{cfg}"            # the fitted centre lies on the line itself
             if ax is not None:
                 mir = list(tg)
                 mir[ax] = -mir[ax]
@@ -688,7 +690,7 @@ def _case_b01(spec):
         return dict(spec=spec, info=info, fails=fails)
     classes = {tr.iface_class(tr.find(p), len(p)) for p in run.cols}
     loose = (method == "lsq") or ("flat" in classes)
-    tol = B01_TOL_LOOSE if loose else B01_TOL_TIGHT
+    tol = (B01_TOL_LOOSE * max(1.0, cond if "flat" in classes else 1.0)) if loose else B01_TOL_TIGHT
     tt = np.array([tr.find(p)["tension"] for p in run.cols])
     exp = tt / tt.mean()
     excluded = sign_forcing_ends(tr, run) > 0
@@ -725,7 +727,17 @@ def _case_b01(spec):
             fails.append(_fail(spec, bad[0] + ":sign-forcing", bad[1] + f"  [{sign_forcing_ends(tr, run)} interface ends satisfy the "
                                                                        f"sign-forcing predicate]", key=KF_SIGN))
         else:
-            if aug_rank_def and bad[0] == "tension":
+            cerr = np.abs(run.M - A)
+            ctol = np.array([dict([("two-point", TOL_TWO), ("arc", TOL_ARC), ("flat", TOL_FLAT), ("mixed", 1.0)])[tr.iface_class(tr.find(p), len(p))]
+                             for p in run.cols])
+            over = cerr > ctol[None, :]
+            if bad[0] == "tension" and over.any():
+                r_, k_ = np.unravel_index(int(np.where(over, cerr, 0).argmax()), cerr.shape)
+                cl_ = tr.iface_class(tr.find(run.cols[k_]), len(run.cols[k_]))
+                fails.append(_fail(spec, f"tension:coefficient-error:{cl_}:{fit}", bad[1] + f"  [cause: coefficient of interface "
+                                   f"{run.cols[k_][:3]}..{run.cols[k_][-1]} ({len(run.cols[k_])} points, {cl_}) is {run.M[r_, k_]:.6g}, analytic "
+                                   f"{A[r_, k_]:.6g}; no sign-forcing predicate end]"))
+            elif aug_rank_def and bad[0] == "tension":
                 fails.append(_fail(spec, "tension:augmented-rank-deficient", bad[1] + "  [force balance determines the tensions up to "
                                    "scale (one-dimensional null space) but the augmented system with the multiplier column does not "
                                    "have full column rank]"))
@@ -936,10 +948,10 @@ def pick_fit(rng, ts, keep=0.15):
     return fit
 
 
-def small_tissue_spec(rng, pts_choices, moebius=None, subset_p=0.6, voronoi_p=0.25, vor_subset_p=0.8):
+def small_tissue_spec(rng, pts_choices, moebius=None, subset_p=0.6, voronoi_p=0.25, vor_subset_p=0.8, vor_n=(25, 40)):
     """random small tissue: a base tissue (whole or a connected subset) or a random subset of a Voronoi tissue"""
     if rng.random() < voronoi_p:
-        n = int(rng.choice([25, 40]))
+        n = int(rng.choice(list(vor_n)))
         seed = int(rng.integers(40))
         ts = dict(base="voronoi", n=n, seed=seed)
         t = gen.voronoi_tissue(n, seed, pts=0)
@@ -959,9 +971,14 @@ def small_tissue_spec(rng, pts_choices, moebius=None, subset_p=0.6, voronoi_p=0.
     return ts
 
 
+def no_big_lsq(ts, m):
+    """the Levenberg-Marquardt back-end takes 5-20 s on whole 25/40-site Voronoi tissues: use the default there"""
+    return None if (m == "lsq" and ts.get("base") == "voronoi" and not ts.get("subset")) else m
+
+
 def cases_b02(tier, seed):
     rng = np.random.default_rng(seed + 202)
-    n_arc, n_str, n_lat = (800, 450, 250) if tier == "quick" else (22000, 12000, 6000)
+    n_arc, n_str, n_lat, n_even = (480, 260, 160, 100) if tier == "quick" else (20000, 11000, 6000, 3000)
     out = []
     for _ in range(n_arc):
         ts = small_tissue_spec(rng, list(range(0, 16)), moebius=float(rng.choice([0.05, 0.2, 0.4, 0.6, 0.8, 0.95])))
@@ -971,6 +988,11 @@ def cases_b02(tier, seed):
         ts = small_tissue_spec(rng, [0, 0, 0, 1, 2, 3, 5, 8, 15])
         ts["xf"] = rand_xf(rng)
         out.append(dict(check="B02", tissue=ts, fit=pick_fit(rng, ts, 0.3), ign=bool(rng.random() < 0.3)))
+    for _ in range(n_even):          # straight interfaces with an even number of points, one of them (nearly) on an axis
+        ts = dict(base=str(rng.choice(["flower", "hex_patch"])), seed=int(rng.integers(50)), pts=int(rng.choice([2, 4, 6, 8, 10, 12, 14])),
+                  xf=dict(align=dict(iface=int(rng.integers(40)), end=int(rng.integers(2)), axis=int(rng.integers(4)),
+                                     delta=float(rng.choice([0.0, 1e-12, 1e-9, -1e-9, 1e-7])))))
+        out.append(dict(check="B02", tissue=ts, fit="dlite", ign=False))
     for _ in range(n_lat):
         kind = str(rng.choice(["square", "brick", "hex"]))
         ts = dict(base="lattice", kind=kind, nx=int(rng.integers(3, 5)), ny=int(rng.integers(3, 5)), seed=0,
@@ -990,7 +1012,7 @@ def cases_b02(tier, seed):
 
 def cases_b01(tier, seed):
     rng = np.random.default_rng(seed + 101)
-    n = 1000 if tier == "quick" else 25000
+    n = 600 if tier == "quick" else 24000
     out = []
     methods = [None, "lsq_linear", "lsq"]
     for i in range(n):
@@ -1004,13 +1026,13 @@ def cases_b01(tier, seed):
         ts["xf"] = rand_xf(rng, near_axis=0.15)
         mesh = int(rng.integers(2, 13)) if (ts["pts"] >= 2 and rng.random() < 0.3) else None
         m = methods[int(rng.choice([0, 0, 1, 2]))]
-        out.append(dict(check="B01", tissue=ts, fit=pick_fit(rng, ts), method=m, mesh=mesh))
+        out.append(dict(check="B01", tissue=ts, fit=pick_fit(rng, ts), method=no_big_lsq(ts, m), mesh=mesh))
     return out
 
 
 def cases_b05(tier, seed):
     rng = np.random.default_rng(seed + 505)
-    n = 900 if tier == "quick" else 22000
+    n = 600 if tier == "quick" else 24000
     out = [dict(check="B05", tissue=dict(base="flower", seed=0, pts=0), fit="dlite", method="fix_stress"),
            dict(check="B05", tissue=dict(base="hex_patch", seed=1, pts=3, moebius=0.6, mseed=2, noise=dict(sigma=0.05, seed=3)),
                 fit="dlite", method="fix_stress")]
@@ -1030,13 +1052,13 @@ def cases_b05(tier, seed):
         if rng.random() < 0.3:
             ts["xf"] = dict(angle=float(rng.uniform(0, 6.28)), scale=float(10 ** rng.uniform(-3, 3)),
                             shift_rel=[float(v) for v in rng.uniform(-5, 5, 2)])
-        out.append(dict(check="B05", tissue=ts, fit=pick_fit(rng, ts), method=m))
+        out.append(dict(check="B05", tissue=ts, fit=pick_fit(rng, ts), method=no_big_lsq(ts, m)))
     return out
 
 
 def cases_b16(tier, seed):
     rng = np.random.default_rng(seed + 1616)
-    n = 700 if tier == "quick" else 16000
+    n = 380 if tier == "quick" else 16000
     out = []
     for i in range(n):
         curved = rng.random() < 0.5
@@ -1050,7 +1072,7 @@ def cases_b16(tier, seed):
         limit = "default" if u < 0.1 else (math.pi if u < 0.15 else
                                            float(rng.uniform(0.5 * math.pi, 0.667 * math.pi) if u < 0.25 else rng.uniform(0.667 * math.pi, math.pi)))
         m = "lsq" if rng.random() < 0.12 else None
-        out.append(dict(check="B16", tissue=ts, fit=pick_fit(rng, ts), method=m, limit=limit))
+        out.append(dict(check="B16", tissue=ts, fit=pick_fit(rng, ts), method=no_big_lsq(ts, m), limit=limit))
     return out
 
 
@@ -1212,8 +1234,9 @@ def run_b01(tier, seed):
                      f"junctions has singular values s_n <= 1e-9 s_1 and s_(n-1) >= {GAP:g} s_1 (else counts.skipped_not_unique). "
                      "Expected reported value = true tension / mean true tension over the inferred interfaces; tolerance on the mean-one "
                      f"scale: {B01_TOL_TIGHT:g} if every interface is two-point or an arc turning >= {FLAT_TURN:g} rad and the method is "
-                     f"default or lsq_linear, {B01_TOL_LOOSE:g} for method 'lsq' or when an interface has >=3 points on a (nearly) "
-                     "straight line. Frame.forces, BigEdge.tension and get_tensions() must agree. Cases with an interface end "
+                     f"default or lsq_linear, {B01_TOL_LOOSE:g} for method 'lsq', {B01_TOL_LOOSE:g} x max(1, s_1/s_(n-1)) when an interface "
+                     "has >=3 points on a (nearly) straight line. A tension failure whose cause is a coefficient outside the B02 tolerance is "
+                     "keyed tension:coefficient-error. Frame.forces, BigEdge.tension and get_tensions() must agree. Cases with an interface end "
                      f"satisfying the sign-forcing predicate are excluded (counts.excluded_sign_forcing) and reported under {KF_SIGN} "
                      "if they fail. non-trivial = evaluated and not excluded")
 
@@ -1230,7 +1253,7 @@ def run_b05(tier, seed):
                      "from ForceMatrix.matrix; own optimum = scipy nnls certified by a KKT test (gradient >= -1e-9 on the zero set, "
                      "|gradient| <= 1e-9 on the support, relative to |A|^2 |z|). Clause optimal: residual(reported tensions, best "
                      "multiplier >= 0) - optimal residual <= rtol x max(|b|, optimum) with rtol 1e-8 (default), 1e-6 (lsq_linear), "
-                     "1e-5 (lsq). Clause minimiser (only if the augmented matrix has full column rank, sigma_min >= 1e-6 sigma_max): "
+                     "1e-5 (lsq). Clause minimiser (only if the augmented matrix has full column rank, sigma_min >= 1e-4 sigma_max): "
                      "|reported - own| <= xtol x max(1, 1e-3 sigma_max/sigma_min), xtol 1e-6 / 1e-5 / 1e-3. No negative value, all "
                      "finite, |mean - 1| <= 1e-6 when the optimal residual <= 1e-8 |b|. non-trivial = at least one equation")
 
